@@ -51,16 +51,14 @@ print("A=", A.tolist(), "b=", B.tolist(), "rc=", rc, "det=", d, "cond=", cond, "
 if rc != 0.0:
     # claimed singular: violated if A is clearly non-singular
     if abs(d) > 1e-9*scale**n and cond < 1e8:
-        print("gj_solve returned", rc, "for a non-singular, well conditioned matrix")
-        sys.exit(1)
-    sys.exit(0)
+        sys.exit(common.replay_exit("gj_solve returned %s for a non-singular, well conditioned matrix" % rc))
+    sys.exit(common.replay_exit(None))
 x = np.array(res).reshape(n, nb)
 r = np.abs(A.dot(x) - B).max()
 ref = np.abs(A).max()*np.abs(x).max() + np.abs(B).max()
 if not np.isfinite(r) or r > 1e-8*cond*max(ref, 1e-300):
-    print("residual", r, "too large for conditioning", cond)
-    sys.exit(1)
-sys.exit(0)
+    sys.exit(common.replay_exit("residual %r too large for conditioning %r" % (r, cond)))
+sys.exit(common.replay_exit(None))
 '''
 
 
@@ -206,7 +204,7 @@ elif which == "augmented_matrix":
     ref = np.hstack([a.reshape(nmax, nmax)[:n, :n], b.reshape(-1, na)[:n]]).ravel()
     r = r[:(n+na)*n]
 print(which, "got", list(r), "expected", list(ref))
-sys.exit(1 if not np.allclose(np.array(r, dtype=float), ref, rtol=1e-12, atol=1e-12) else 0)
+sys.exit(common.replay_exit(None if np.allclose(np.array(r, dtype=float), ref, rtol=1e-12, atol=1e-12) else which + " differs from its definition"))
 '''
 
 
